@@ -220,6 +220,31 @@ class Ctx:
         self.assume(f)
         return False
 
+    def prove_from(self, name, hyps, goal, note=""):
+        """prove `goal` from the listed facts only (each must already be part of the path condition): a small
+        self-contained query, used for proof hints so that they do not drag the whole path condition along"""
+        for h in hyps:
+            if not any(h.eq(x) for x in self.pc):
+                raise EngineError("prove_from: hypothesis is not a fact of the path condition: %s" % h.sexpr()[:120])
+        t0 = time.time()
+        so = z3.Solver()
+        so.set("timeout", self.timeout_ms)
+        so.add(*hyps)
+        so.add(z3.Not(goal))
+        r = so.check()
+        ms = (time.time() - t0) * 1000
+        self.solver_ms += ms
+        self.nchecks += 1
+        if r == z3.unsat:
+            self.results.append(Result(name, "proved", None, ms, self._path_id(), note))
+            self.assume(goal)
+            return True
+        # not derivable from the hints alone: fall back to the full path condition
+        ok = self.prove(name, goal, note)
+        if ok:
+            self.assume(goal)
+        return ok
+
     def fail(self, name, note=""):
         """the code reached a state the contract forbids on a feasible path (e.g. a wrong exception class)"""
         return self.prove(name, z3.BoolVal(False), note)
